@@ -82,6 +82,8 @@ def _walk_no_nested(fn):
     stack = list(fn.body)
     while stack:
         n = stack.pop()
+        if isinstance(n, (ast.FunctionDef, ast.Lambda, ast.AsyncFunctionDef, ast.ClassDef)):
+            continue
         yield n
         for c in ast.iter_child_nodes(n):
             if isinstance(c, (ast.FunctionDef, ast.Lambda, ast.AsyncFunctionDef, ast.ClassDef)):
@@ -104,6 +106,7 @@ class ClassInfo:
         self.descriptors = {}     # attr name -> FuncInfo(kind=lambda) parent getter
         self.consts = {}          # class-level constant assignments: name -> ast expr
         self.enum_members = {}    # NAME -> (pb2 module, pb2 enum, const name) for Enum classes
+        self.enum_auto = {}       # NAME -> int for members defined with enum.auto() (1-based, in order)
         self.is_enum = False
         self.mro = []
 
@@ -220,6 +223,8 @@ class Program:
                     em = _enum_member(value)
                     if em is not None:
                         ci.enum_members[name] = em
+                    if isinstance(value, ast.Call) and ast.unparse(value.func) in ("enum.auto", "auto"):
+                        ci.enum_auto[name] = len(ci.enum_auto) + 1
 
     def _resolve(self):
         for ci in self.classes.values():
